@@ -69,5 +69,9 @@ func UF64(name string, x uint64) uint64 { return 0 }
 func Go(f func())        {}
 func Join(preempt int)   {}
 func CrashRun(f func()) bool { return false }
-func Trace(msg string)   {}
-func Yield(tag string)   {}
+func FaultRun(f func()) bool { return false }
+func HitAt() string          { return "" }
+func Trace(msg string)       {}
+
+// Yield marks a scheduling point in native wrappers; returns true if a storage fault is to be injected here
+func Yield(tag string) bool { return false }
